@@ -41,7 +41,7 @@ func Run(c *vf.Check) {
 	vf.Parallel(len(jobs), func(i int) { explore(c, jobs[i].w, jobs[i].first, jobs[i].depth) })
 	hon := honestJobs(c)
 	vf.Parallel(len(hon), func(i int) { hon[i]() })
-	c.Finish("engine S (explicit-state BFS, observer-centred): for Pedersen and Rabin VSS, n=3 (thorough 3,4), every valid t, observers = verifier 0, verifier n-1 and the dealer's aggregator: all histories up to depth n+3 over the event menu {14 deal variants built by editing the dealer's plaintext deal and encrypting through the real path: honest, share+1, wrong index, wrong index together with another valid threshold, commitment replaced, T in {0,1,n+1}, SessionID replaced, share value absent, wrong recipient, forged dealer, flipped signature, replayed other-session deal; per other verifier: authentic approval, authentic complaint, bad signature, a genuine response with its status flipped and its signature kept, other-session approval, approval of an equivocated deal (another polynomial whose SessionID field claims this session); out-of-range and forged-own responses; per index: correct and incorrect justification, a justification revealing a share on the polynomial at an index beyond the last verifier (also for the observer's own complaint), out-of-range justification; timeout}. "+
+	c.Finish("engine S (explicit-state BFS, observer-centred): for Pedersen and Rabin VSS, n=3 (thorough 3,4), every valid t, observers = verifier 0, verifier n-1 and the dealer's aggregator: all histories up to depth n+3 over the event menu {14 deal variants built by editing the dealer's plaintext deal and encrypting through the real path: honest, share+1, wrong index, wrong index together with another valid threshold, commitment replaced, T in {0,1,n+1}, SessionID replaced, share value absent, wrong recipient, forged dealer, flipped signature, replayed other-session deal; per other verifier: authentic approval, authentic complaint, bad signature, a genuine response with its status flipped and its signature kept, other-session approval, approval of an equivocated deal (another polynomial whose SessionID field claims this session); out-of-range and forged-own responses; per index: correct and incorrect justification, a justification revealing a share on the polynomial at an index beyond the last verifier, one revealing another verifier's valid share, one revealing a share of another self-consistent polynomial under this session's id (also for the observer's own complaint), out-of-range justification; timeout}. "+
 		"Lock-step reference model from the statement; after every transition: approval only of consistent deals (S2), DealCertified => >= t distinct approved/justified verifiers, no processed invalid justification, own deal approved/justified, valid threshold (S3), all approved/justified and no invalid justification => certified, Deal()!=nil => certified. States merged on model state + certification + exposed response statuses. Honest runs for n=3..5 (every t): all approve, certified everywhere, every t-subset of Deal()s recovers the dealer's secret and commitment (S1). "+
 		"non-trivial = histories of length >= 2 reaching a new canonical state",
 		[]string{"messages are generated once per (variant,n,t) from seeded streams through the real Dealer/Verifier code", "state merging assumes the model state plus the exposed observables determine future behaviour (lost coverage, never a false alarm, if not)",
